@@ -53,6 +53,8 @@ def configure_alignment(reaction, alignment):
     from ampform.helicity.align.dpd import DalitzPlotDecomposition, relabel_edge_ids
 
     off = 0
+    dynamics = alignment.endswith("+ff")   # "<alignment>+ff": form factor on the production node, Breit-Wigner with form factor on the resonances
+    alignment = alignment.removesuffix("+ff")
     if alignment.startswith("dpd") or alignment == "relabel":
         reaction = relabel_edge_ids(reaction)
         off = 1
@@ -61,6 +63,14 @@ def configure_alignment(reaction, alignment):
         b.config.spin_alignment = AxisAngleAlignment()
     elif alignment.startswith("dpd"):
         b.config.spin_alignment = DalitzPlotDecomposition(int(alignment[3]))
+    if dynamics:
+        from ampform.dynamics.builder import create_non_dynamic_with_ff, create_relativistic_breit_wigner_with_ff
+
+        t0 = reaction.transitions[0]
+        init = t0.states[next(iter(t0.topology.incoming_edge_ids))].particle.name
+        b.dynamics.assign(init, create_non_dynamic_with_ff)
+        for name in sorted({t.states[i].particle.name for t in reaction.transitions for i in t.topology.intermediate_edge_ids}):
+            b.dynamics.assign(name, create_relativistic_breit_wigner_with_ff)
     return reaction, off, b
 
 
